@@ -109,7 +109,90 @@ func (fv *FuncVC) generate() (err error) {
 	if len(fv.unsupported) > 0 {
 		return fmt.Errorf("%s: outside the verified subset: %s", fv.name, strings.Join(uniq(fv.unsupported), "; "))
 	}
+	fv.curBlock = nil
+	fv.bg = append(fv.bg, axiomsFor(fv.e, fv.assumptions)...)
+	for len(fv.bgBlk) < len(fv.bg) {
+		fv.bgBlk = append(fv.bgBlk, 0)
+	}
 	return nil
+}
+
+// axiomsFor: `axiom` items of the contract files are assumptions about uninterpreted
+// spec functions (listed in evidence); an axiom is included when one of the spec
+// functions it mentions is used in this script.
+func axiomsFor(e *Enc, assumptions map[string]bool) []string {
+	var out []string
+	for round := 0; round < 3; round++ {
+		for _, ax := range e.P.axioms {
+			key := "axiom:" + ax.Pkg + "." + ax.Name
+			if e.declared[key] {
+				continue
+			}
+			used := false
+			for _, n := range specCallNames(ax.Body) {
+				if e.declared["fn:spec_"+sanitize(n)] || e.declared["fn:spec_"+sanitize(shortPkg(ax.Pkg)+"_"+n)] {
+					used = true
+				}
+			}
+			if !used {
+				continue
+			}
+			e.declared[key] = true
+			st := &State{kind: sEntry, h: map[string]Term{}, fv: &FuncVC{e: e, P: e.P}}
+			env := &Env{e: e, vars: map[string]TV{}, st: st, old: st, pkg: ax.Pkg, alloc0: "0"}
+			out = append(out, "(assert "+env.trBool(ax.Body)+")")
+			if assumptions != nil {
+				assumptions["axiom (assumed): "+shortPkg(ax.Pkg)+"."+ax.Name+": "+exprString(ax.Body)] = true
+			}
+		}
+	}
+	return out
+}
+
+func specCallNames(e Expr) []string {
+	var out []string
+	var walk func(e Expr)
+	walk = func(e Expr) {
+		switch x := e.(type) {
+		case *ECall:
+			out = append(out, x.Fn)
+			for _, a := range x.Args {
+				walk(a)
+			}
+		case *EIdent:
+			out = append(out, x.Name)
+		case *EUn:
+			walk(x.X)
+		case *EBin:
+			walk(x.L)
+			walk(x.R)
+		case *EIndex:
+			walk(x.X)
+			walk(x.I)
+		case *ESlice:
+			walk(x.X)
+			if x.Lo != nil {
+				walk(x.Lo)
+			}
+			if x.Hi != nil {
+				walk(x.Hi)
+			}
+		case *EField:
+			walk(x.X)
+		case *EQuant:
+			walk(x.Body)
+		case *ECond:
+			walk(x.C)
+			walk(x.A)
+			walk(x.B)
+		case *ETypeIs:
+			walk(x.X)
+		case *EAs:
+			walk(x.X)
+		}
+	}
+	walk(e)
+	return out
 }
 
 func uniq(s []string) []string {
@@ -136,6 +219,11 @@ func (fv *FuncVC) pkgPath() string {
 
 // modTargets: `modifies x` — x a slice (its backing array), a pointer (the cell), or a map.
 func (fv *FuncVC) modTargets(env *Env, m Expr) []modEntry {
+	if c, ok := m.(*ECall); ok && c.Fn == "region" && len(c.Args) == 1 {
+		// region(x): everything allocated since x's owner was created (ids >= minid(x))
+		v := env.tr(c.Args[0])
+		return []modEntry{{low: fv.e.minid(v)}}
+	}
 	v := env.tr(m)
 	e := fv.e
 	switch u := v.Ty.Underlying().(type) {
@@ -782,6 +870,15 @@ func (fv *FuncVC) binop(op token.Token, X, Y ssa.Value, rt types.Type, pos token
 	return fv.e.fresh("unk", fv.e.sortOf(rt))
 }
 
+func isByteSlice(t types.Type) bool {
+	sl, ok := t.Underlying().(*types.Slice)
+	if !ok {
+		return false
+	}
+	b, ok := sl.Elem().Underlying().(*types.Basic)
+	return ok && b.Kind() == types.Uint8
+}
+
 func isBasic(t types.Type) bool {
 	_, ok := t.Underlying().(*types.Basic)
 	return ok
@@ -822,6 +919,10 @@ func (fv *FuncVC) convert(x *ssa.Convert) Term {
 		return v
 	case isString(to) && isString(from):
 		return v
+	case isString(to) && isByteSlice(from):
+		e.declBytesStr()
+		h := fv.st.get(e.elemHeap(from.Underlying().(*types.Slice).Elem()))
+		return app("bytes_str", app("select", h, app("s_arr", v)), app("idx", v, "0"), app("s_len", v))
 	case isString(to) || isString(from):
 		name := "conv_" + e.mangle(from) + "_" + e.mangle(to)
 		e.decl("fn:"+name, fmt.Sprintf("(declare-fun %s (%s) %s)", name, e.sortOf(from), e.sortOf(to)))
